@@ -171,6 +171,8 @@ impl<T: TypeConfig> RaftRoleState for CandidateState<T> {
         debug!("candidate new term: {}", self.current_term());
 
         self.vote_myself()?;
+        // New term + self vote must survive a crash before any vote request is sent.
+        ctx.raft_log().save_hard_state(&self.shared_state.hard_state)?;
 
         match ctx
             .election_handler()
